@@ -116,3 +116,42 @@ func vGenMediaTable(g int) vTable {
 	}
 	return vTable{services: []vService{{root: "/t", routes: routes}}}
 }
+
+// ---------------------------------------------------------------- generated root-path tables (configuration numbers >= 3000)
+
+// vGenRoots: root path shapes of WebServices. Every unordered pair (and every single one) becomes a table of one or
+// two services, each with the routes GET / and GET /e. Mirrored in /verif/engine/cmd/gosmt/gentables.go.
+var vGenRoots = []string{"/a", "/a/b", "/{v}", "/{v:[0-9]+}", "/{v}.x", "/p{v}", "/a/{v}", "/{v}/b", "/a/{v}.x", "/{v:[0-9]*}", "/", "/a/{v:[0-9]+}"}
+
+func vGenRootDecode(g int) (i, j int) {
+	n := len(vGenRoots)
+	for i = 0; i < n; i++ {
+		row := n - i
+		if g < row {
+			return i, i + g
+		}
+		g -= row
+	}
+	return 0, 0
+}
+
+func vGenRootTable(g int) vTable {
+	i, j := vGenRootDecode(g)
+	rename := func(root string, name byte) string {
+		out := ""
+		for k := 0; k < len(root); k++ {
+			if root[k] == 'v' && k > 0 && root[k-1] == '{' {
+				out += string(rune(name))
+			} else {
+				out += string(root[k])
+			}
+		}
+		return out
+	}
+	routes := func() []vRoute { return []vRoute{{method: "GET", path: "/"}, {method: "GET", path: "/e"}} }
+	t := vTable{services: []vService{{root: rename(vGenRoots[i], 'v'), routes: routes()}}}
+	if j != i {
+		t.services = append(t.services, vService{root: rename(vGenRoots[j], 'w'), routes: routes()})
+	}
+	return t
+}
